@@ -112,11 +112,15 @@ def use_instance(H):
         return None
 
     H.prove(cascade("fill") == ("blue" if tgt_fill else "red"), "use.own_paint_wins_otherwise_the_use_paint")
-    want_op = ton * (uon if use_op else 1)
+    # the alpha a renderer composites with: every element's opacity clamped to [0, 1], then multiplied along the chain
+    from pyvc.sym import smax, smin
+
+    c01 = lambda v: smax(0, smin(1, v))
+    want_op = c01(ton) * (c01(uon) if use_op else 1)
     got_op = 1
     for c in chain:
         if "opacity" in c.attrib:
-            got_op = got_op * num_of(H, c.attrib["opacity"])
+            got_op = got_op * c01(num_of(H, c.attrib["opacity"]))
     H.prove(H.close(got_op, want_op), "use.opacity_multiplied_once")
     p = (H.real("px"), H.real("py"))
     from .spec import mat_mul, translate_m
